@@ -1056,6 +1056,13 @@ def c19(res, tier, seed, lib):
             continue  # streaming commands: still printing complete lines when stopped, no verdict on termination here
         res.check(rc in (0, 1, 2), "huge-count-exit-0-1-2", "cli:" + argv[0], " ".join(argv),
                   "rc=%s stderr=%r" % ("still running after 90 s" if rc == -999 else rc, strip_sgr(err)[:160]))
+    # ---- the program name is not an argument: a non-UTF-8 argv[0] must not change anything ----
+    for argv in [["color", "red"], ["format", "hex", "blue"], ["lighten", "0.1", "green"]]:
+        ref = run_cli(argv)
+        p = subprocess.run([b"p\xff\xfe"] + [a.encode() for a in argv], executable=BIN, stdin=subprocess.DEVNULL, stdout=subprocess.PIPE, stderr=subprocess.PIPE, env=base_env(None), timeout=30)
+        res.case("argv[0]=p\\xff\\xfe " + " ".join(argv))
+        res.check(p.returncode == ref[0] == 0 and p.stdout == ref[1], "program-name-is-not-an-argument", "cli:main", "argv[0]=b'p\\xff\\xfe' " + " ".join(argv),
+                  "rc=%s stdout=%r stderr=%r (with an ordinary program name: rc=%s %r)" % (p.returncode, p.stdout[:60], strip_sgr(p.stderr)[:100], ref[0], ref[1][:60]))
     # ---- long lists through the commands that collect all colours before printing ----
     for ln in [21, 64, 300]:
         texts = [rand_color_text(rnd) for _ in range(ln)]
@@ -1207,6 +1214,8 @@ def c19(res, tier, seed, lib):
           ("four-components", "({'color': <(0.5, 0.25, 0.1, 1.0)>},)", 1), ("no-components", "({'color': <()>},)", 1),
           ("one-paren", "(", 1), ("two-parens", "((", 1), ("garbage", "garbage", 1), ("empty", "", 1),
           ("nan", "({'color': <(nan, inf, -1)>},)", None), ("huge", "({'color': <(1e308, 1e308, 1e308)>},)", None),
+          ("neg-inf", "({'color': <(-inf, 0.0, 0.0)>},)", None), ("neg-overflow", "({'color': <(-1e999, 0.0, 0.0)>},)", None),
+          ("neg-nan", "({'color': <(0.0, -nan, 0.0)>},)", None),
           ("words", "({'color': <(a, b, c)>},)", 1), ("five", "((1,2,3,4,5", 1), ("exact-3-no-close", "((0.1,0.2,0.3", 0)]
     d = tempfile.mkdtemp(prefix="pv-picker-", dir=BUILD)
     try:
@@ -1231,7 +1240,9 @@ def c19(res, tier, seed, lib):
                         continue
                     generic_oracle(res, cmd + ["<picker %s:%s>" % (name, label)], rc, out, err, allow_partial_line=True)
                     # (replies whose numbers Rust parses as NaN/inf may be accepted or rejected: only the exit-status rule applies)
-                    if want_rc == 1 and rc == 1 and reply.strip():
+                    # whenever the reply is not accepted, the error names the reply itself (its first line), not
+                    # a string made from it
+                    if rc == 1 and reply.strip():
                         cls, msg = classify_stderr(err)
                         res.check(cls == "color-parse" and msg is not None and reply.strip().split("\n")[0] in msg, "picker-error-names-the-reply", "cli:colorpicker", inp, repr(msg))
                     res.check(want_rc is None or rc == want_rc, "picker-reply-handled", "cli:colorpicker", inp, "rc=%s stderr=%r" % (rc, err[-160:]))
@@ -1496,6 +1507,21 @@ def c07(res, tier, seed, lib):
         res.case("mix -s %s - blue green #123456 < red" % sp)
         res.check(ra[0] == rd[0] == rd2[0] == 0 and ra[1] == rd[1] == rd2[1], "mix-base-from-stdin-read-once", "cli:mix", "mix -s %s - blue green #123456" % sp,
                   "args: rc=%s %r; '-' with one line: rc=%s %r; with three lines: %r" % (ra[0], ra[1][:80], rd[0], rd[1][:80], rd2[1][:80]))
+    # the base is the first positional argument: given as '-' it is the FIRST line of stdin, also when colours
+    # are '-' too or come from stdin; an unparsable base is reported even when there is nothing to mix
+    for argv_args, argv_dash, data in [
+            (["mix", "-f", "0.9", "red", "blue"], ["mix", "-f", "0.9", "-", "-"], b"red\nblue\n"),
+            (["mix", "red", "blue", "green"], ["mix", "-"], b"red\nblue\ngreen\n"),
+            (["mix", "-s", "hsl", "red", "blue", "green"], ["mix", "-s", "hsl", "-", "-", "green"], b"red\nblue\n"),
+            (["mix", "-s", "rgb", "#102030", "white", "black"], ["mix", "-s", "rgb", "-", "white", "-"], b"#102030\nblack\n")]:
+        ra = run_cli(argv_args)
+        rd = run_cli(argv_dash, stdin=data)
+        res.case(" ".join(argv_dash) + " < " + repr(data))
+        res.check(ra[0] == rd[0] == 0 and ra[1] == rd[1], "mix-base-is-the-first-stdin-line", "cli:mix", " ".join(argv_dash) + " < " + repr(data),
+                  "arguments: rc=%s %r; with '-': rc=%s %r" % (ra[0], ra[1][:80], rd[0], rd[1][:80]))
+    rb = run_cli(["mix", "bogus"], stdin=b"")
+    res.case("mix bogus < /dev/null")
+    res.check(rb[0] == 1 and b"'bogus'" in rb[2], "mix-unparsable-base-is-reported", "cli:mix", "mix bogus < /dev/null", "rc=%s stderr=%r" % (rb[0], strip_sgr(rb[2])[:120]))
     # the default fraction is 0.5 and the default space Lab
     rc1, out1, _ = run_cli(["mix", "red", "blue"])
     rc2, out2, _ = run_cli(["mix", "-f", "0.5", "-s", "Lab", "red", "blue"])
@@ -1701,6 +1727,17 @@ def c06(res, tier, seed, lib):
     """`pastel set P V C | pastel format P` reads back V (for properties printed by `format`),
     and the output equals the model's `set`."""
     modelled_family(res, random.Random(seed + 77), ['lighten', 'darken', 'saturate', 'desaturate', 'rotate', 'complement', 'set'], 200 if tier != "thorough" else 3000)
+    # out-of-range values of any magnitude: far outside the gamut the rebuilt colour is the gamut clip in that
+    # direction, so a value of 1e200 gives what 1e100 gives (the property's "all finite values ... out-of-range")
+    for prop, big, large, col in [("oklab-l", "-1e103", "-1e102", "white"), ("oklab-l", "-1e200", "-1e100", "black"), ("oklab-a", "1e200", "1e100", "gray"),
+                                  ("oklab-b", "-1e200", "-1e100", "gray"), ("chroma", "1e308", "1e100", "blue"), ("chroma", "1e106", "1e100", "white"),
+                                  ("lab-a", "1e300", "1e100", "gray"), ("lab-b", "-1e300", "-1e100", "gray"), ("lightness", "1e300", "1e100", "red"),
+                                  ("hsl-lightness", "1e300", "1e100", "red"), ("red", "1e300", "1e100", "blue"), ("hue", "3.6e300", "0", "red")]:
+        rb = run_cli(["set", prop, big, col])
+        rl = run_cli(["set", prop, large, col])
+        res.case("set %s %s %s" % (prop, big, col))
+        res.check(rb[0] == rl[0] == 0 and rb[1] == rl[1], "set-huge-value-clips-like-a-large-one", "cli:set", "set %s %s %s" % (prop, big, col),
+                  "%r, but set %s %s %s gives %r" % (rb[1].strip(), prop, large, col, rl[1].strip()))
     rnd = random.Random(seed)
     readable = {"hsl-hue": (0, 360, 0.5), "hsl-saturation": (0, 1, 1e-4), "hsl-lightness": (0, 1, 1e-4)}
     colors = [rand_color_text(rnd) for _ in range(20 if tier != "thorough" else 120)]
